@@ -1,3 +1,4 @@
+mod cparse;
 mod ddlparse;
 mod enumerate;
 mod dml;
